@@ -225,7 +225,9 @@ func normals3Sections(r *vlib.Run) {
 		// ---- RepairNormalsMajority
 		{
 			m := meshOf(damaged)
+			beforeMaj := snap3(m)
 			out, count := m.RepairNormalsMajority()
+			untouched3(c, "model3d.Mesh.RepairNormalsMajority", m, beforeMaj)
 			c.Count("normals3.RepairNormalsMajority.decided", 1)
 			wantCount := 0
 			ties := 0
@@ -341,7 +343,9 @@ func normals3Sections(r *vlib.Run) {
 			}
 		}
 		m := meshOf(damaged)
+		beforeRN := snap3(m)
 		out, count := m.RepairNormals(eps)
+		untouched3(c, "model3d.Mesh.RepairNormals", m, beforeRN)
 		c.Count("normals3.RepairNormals.decided", 1)
 		if wantFlips > 0 {
 			c.Count("normals3.RepairNormals.with_flips", 1)
